@@ -93,8 +93,10 @@ static bool scen_prepare(struct scen* s) {
     }
     case 'B': return nb == 1 && body[0] < NBUILDERS;
     case 'P': { /* body: container kind (0 indef array push, 1 indef array set, 2 indef map, 3 chunked bytes, 4 chunked text, 5 def array push (room), 6 def map add (room)), existing members */
-      if (nb != 2) return false;
-      int ck = body[0], have = body[1];
+      if (nb != 2 || body[0] >= 14) return false;
+      /* kinds 7..13: the same seven calls with a fresh argument handed over through cbor_move (count 0 during the call) */
+      bool lent = body[0] >= 7;
+      int ck = body[0] % 7, have = body[1];
       cbor_item_t* c = ck <= 1 ? cbor_new_indefinite_array() : ck == 2 ? cbor_new_indefinite_map() : ck == 3 ? cbor_new_indefinite_bytestring() : ck == 4 ? cbor_new_indefinite_string()
                      : ck == 5 ? cbor_new_definite_array((size_t)have + 1) : cbor_new_definite_map((size_t)have + 1);
       cbor_item_t* x = member_item(ck == 3 ? 1 : ck == 4 ? 2 : 0);
@@ -104,6 +106,7 @@ static bool scen_prepare(struct scen* s) {
         if (!ok) return false;
       }
       s->pre[0] = c; s->pre[1] = x; s->npre = 2;
+      if (lent) { s->pre[2] = member_item(ck == 3 ? 1 : ck == 4 ? 2 : 0); if (!s->pre[2]) return false; s->npre = 3; }
       return true;
     }
     case 'T': {
@@ -159,10 +162,23 @@ static struct outcome scen_run(struct scen* s) {
     }
     case 'B': o.result = call_builder(s->d[1]); o.ok = o.result != NULL; break;
     case 'P': {
-      int ck = s->d[1];
-      cbor_item_t* c = s->pre[0], * x = s->pre[1];
+      bool lent = s->d[1] >= 7;
+      int ck = s->d[1] % 7;
+      cbor_item_t* c = s->pre[0], * x = lent ? cbor_move(s->pre[2]) : s->pre[1];
       o.ok = ck == 0 || ck == 5 ? cbor_array_push(c, x) : ck == 1 ? cbor_array_set(c, cbor_array_size(c), x) : (ck == 2 || ck == 6) ? cbor_map_add(c, (struct cbor_pair){.key = x, .value = x})
            : ck == 3 ? cbor_bytestring_add_chunk(c, x) : cbor_string_add_chunk(c, x);
+      if (lent) {
+        /* the client takes its reference back: after success the container keeps the item alive, after a refusal the
+         * item must be exactly as it was handed over — allocated, count 0 — or the documented idiom cannot recover it */
+        if (!o.ok && !ta_is_live(x)) {
+          vh_violation("argument-released-by-failed-call", "the refused call released the item it was handed through cbor_move (the caller still owns it and will use it again)");
+          s->pre[2] = NULL;
+        } else {
+          if (!o.ok && cbor_refcount(x) != 0) vh_violation("arguments-changed-by-failed-call", "an item handed over through cbor_move with reference count 0 has count %zu after the refused call", cbor_refcount(x));
+          cbor_incref(x);
+          if (o.ok && ck != 2 && ck != 6 && cbor_refcount(x) != 2) vh_violation("refcount-after-moved-insert", "an item inserted through cbor_move and re-acquired by the client has reference count %zu (expected 2)", cbor_refcount(x));
+        }
+      }
       break;
     }
     case 'T': o.result = cbor_build_tag(5, s->pre[0]); o.ok = o.result != NULL; break;
@@ -202,7 +218,7 @@ static void describe_scen(const uint8_t* d, size_t n, char* out, size_t cap) {
     case 'R': snprintf(out, cap, "cbor_serialize_alloc(api-built tree %s)", vh_hex(d + 1, n - 1, 16)); break;
     case 'B': snprintf(out, cap, "cbor_%s", builder_names[d[1] < NBUILDERS ? d[1] : 0]); break;
     case 'P': { static const char* pk[] = {"cbor_array_push on an indefinite array", "cbor_array_set(size) on an indefinite array", "cbor_map_add on an indefinite map", "cbor_bytestring_add_chunk", "cbor_string_add_chunk", "cbor_array_push on a definite array with room", "cbor_map_add on a definite map with room"};
-      snprintf(out, cap, "%s holding %d member(s)", pk[d[1] < 7 ? d[1] : 0], d[2]); break; }
+      snprintf(out, cap, "%s holding %d member(s)%s", pk[d[1] % 7], d[2], d[1] >= 7 ? ", the new member handed over through cbor_move" : ""); break; }
     case 'T': snprintf(out, cap, "cbor_build_tag"); break;
     default: snprintf(out, cap, "?");
   }
@@ -346,7 +362,7 @@ static void fault_run_all(void) {
   if (!strcmp(st, "api")) {
     for (int b = 0; b < NBUILDERS; b++) if (MINE()) { uint8_t s[2] = {'B', (uint8_t)b}; scenario(s, 2); }
     static const uint8_t have[] = {0, 1, 2, 3, 4, 5, 7, 8, 9, 15, 16, 17, 31, 32, 33, 64, 100};
-    for (int ck = 0; ck < 7; ck++) for (size_t h = 0; h < sizeof have; h++) if (MINE()) { uint8_t s[3] = {'P', (uint8_t)ck, have[h]}; scenario(s, 3); }
+    for (int ck = 0; ck < 14; ck++) for (size_t h = 0; h < sizeof have; h++) if (MINE()) { uint8_t s[3] = {'P', (uint8_t)ck, have[h]}; scenario(s, 3); }
     if (MINE()) { uint8_t s[1] = {'T'}; scenario(s, 1); }
     uint64_t nq = O.budget ? O.budget : (O.thorough ? 20000 : 1500);
     for (uint64_t u = 0; u < nq; u++) {
